@@ -291,11 +291,12 @@ class Parser:
         t3 = self._assert_and_cunsume(TokenType.BRACKET_LEFT)
         node.tokens.append(t3)
 
-        self._parse_subtree(node)
+        self._parse_subtree(node, flag=False)  # t3 opens the first point
         root.add_child(node)
 
-    def _parse_subtree(self, root: ASTNode) -> None:
-        flag = True  # flag to check if the brachet_left can be consumed
+    def _parse_subtree(self, root: ASTNode, flag: bool = True) -> None:
+        # `flag` is False while an opening bracket has been consumed that
+        # still has to turn out to open a point, a marker or a split
         current = root
         while (token := self.next_token) is not None:
             match token.type:
@@ -303,8 +304,8 @@ class Parser:
                     self._read_token()
                     if flag:
                         flag = False
-                    else:
-                        self._parse_split(current)
+                    else:  # `( (`: a split whose first alternative starts here
+                        self._parse_split(current, flag=False)
                         flag = True
 
                 case TokenType.BRACKET_RIGHT:
@@ -316,6 +317,9 @@ class Parser:
                     flag = True
 
                 case TokenType.FLOAT:
+                    if flag:  # a point without its opening bracket
+                        raise TokenTypeError(token, "BRACKET_LEFT")
+
                     current = self._parse_node(current)
                     flag = True
 
@@ -333,7 +337,7 @@ class Parser:
                         current = root
                         self._read_token()
                     else:  # a split whose first alternative is empty
-                        self._parse_split(current)
+                        self._parse_split(current, flag=True)
 
                     flag = True
 
@@ -348,9 +352,9 @@ class Parser:
 
             current.tokens.append(token)
 
-    def _parse_split(self, root: ASTNode) -> None:
+    def _parse_split(self, root: ASTNode, flag: bool) -> None:
         # the opening bracket is already consumed: ALT | ALT | ... )
-        self._parse_subtree(root)
+        self._parse_subtree(root, flag)
         self._assert_and_cunsume(TokenType.BRACKET_RIGHT)
 
     def _parse_node(self, root: ASTNode) -> ASTNode:
